@@ -18,7 +18,8 @@ def run(tier, seed):
     t1 = bitbuffer.t1_specs(tier)
     t1 += [s for s in layout.specs(tier) if s[1] == "make_step" and (s[2][0].startswith("bits") or s[2][7] == "exit")]
     rep.add_case_results(run_cases(t1), "T1")
-    progs = sets.focused_programs(sorted(sets.BIT_KINDS), seed, partners=("u8", "u32", "i24", "inner", "d_char"), tier=tier)
+    progs = sets.focused_programs(sorted(sets.BIT_KINDS), seed, partners=("u8", "u16", "u32", "i24", "inner", "d_char"), tier=tier,
+                                   sandwich=("u8", "inner", "a_u16_3", "d_char", "e8", "anon_s"))
     from t2.family import Program
 
     progs += [Program(["b8_roll"], e, a) for e in "<>" for a in (False, True)] + [Program(["b8_part", "b8_part"], "<", False)]
